@@ -907,6 +907,13 @@ class CallsMixin:
     def quant(self, it, fr, is_any):
         if isinstance(it, GenValue):
             return it.quantify(self, is_any)
+        if isinstance(it, SObj):
+            model = self.model_for(it.cls)
+            if model is not None and hasattr(model, "quantify_all"):
+                if is_any:
+                    # any() over a flag table is a different question from all(): unconstrained
+                    return SymBool(z3.Bool(self.ctx.fresh_name("any_flag")))
+                return model.quantify_all(self, it)
         vals = self.iter_concrete(it, fr)
         ts = [ops.truth(self.ctx, v) for v in vals]
         zs = [z3.BoolVal(t) if isinstance(t, bool) else t for t in ts]
